@@ -93,7 +93,7 @@ def main():
                 t0 = time.time()
                 evf = os.path.join(V, "evidence", "%s.json" % prop)
                 saved = open(evf).read() if os.path.exists(evf) else None     # the committed evidence must describe the UNCHANGED tree
-                rcc, outc = sh("./vcheck %s --tier quick" % prop, cwd=V, timeout=7200)
+                rcc, outc = sh("./vcheck %s --tier quick" % prop, cwd=V, env=dict(os.environ, VERIF_SEED="1", VERIF_TIER="quick"), timeout=7200)   # as the checks are run in use
                 if os.path.exists(evf):
                     shutil.copy(evf, os.path.join(V, "seeded", sid + ".evidence.json") if os.path.isdir(os.path.join(V, "seeded")) else evf)
                 if saved is not None:
